@@ -374,6 +374,25 @@ def threshold_histories(tier, seed):
         ops.append({"op": "set_len", "p": sp([pool[0]]), "n": 5000, "heavy": True})
         ops.append({"op": "set_len", "p": sp([pool[0]]), "n": 100, "heavy": True})
         out.append({"id": f"minifatgrow_v{ver}", "ver": ver, "heavy": "marked", "ops": ops})
+        # (b2) the MiniFAT spans two sectors, then the TAIL of the mini stream is freed (the in-memory
+        #      MiniFAT is trimmed, the chain is not), then a mini sector is appended again
+        f = Fill()
+        ops = []
+        per_mf = 128 if ver == 3 else 1024
+        each = 32 if ver == 3 else 63                      # mini sectors per stream
+        n = per_mf // each + 2
+        names = (pool + ["f1", "f2", "f3", "f4", "f5", "f6", "f7", "f8"])[:n]
+        for nm in names:
+            ops.append({"op": "create_stream", "p": sp([nm])})
+            ops.append({"op": "write", "p": sp([nm]), "off": 0, "runs": f.runs(rng, each * 64)})
+        ops[-1]["heavy"] = True
+        for nm in names[-3:][::-1]:
+            ops.append({"op": "remove_stream", "p": sp([nm]), "heavy": True})
+        ops.append({"op": "create_stream", "p": sp(["zz"])})
+        ops.append({"op": "write", "p": sp(["zz"]), "off": 0, "runs": f.runs(rng, 100), "heavy": True})
+        ops.append({"op": "write", "p": sp(["zz"]), "off": 100, "runs": f.runs(rng, 64 * each), "heavy": True})
+        ops.append({"op": "reopen", "mode": "strict", "heavy": True})
+        out.append({"id": f"minifattail_v{ver}", "ver": ver, "heavy": "marked", "ops": ops})
         # (c) FAT growth: V3 128 entries per FAT sector (64 KiB), V4 1024 (4 MiB)
         if ver == 3 or tier == "thorough":
             f = Fill()
@@ -518,6 +537,22 @@ def c15_templates(tier):
                     # regular -> larger regular -> back (truncation inside a regular chain)
                     "grow_shrink_big": [{"op": "set_len", "p": sp(["AB"]), "n": 5000 + s + 4096},
                                         {"op": "set_len", "p": sp(["AB"]), "n": 5000}],
+                    # a small stream overwritten from offset 0 past the cutoff (migration on the write path)
+                    "small_then_big": [{"op": "create_stream", "p": sp(["zz"])},
+                                       {"op": "write", "p": sp(["zz"]), "off": 0, "runs": [[7, 100]]},
+                                       {"op": "write", "p": sp(["zz"]), "off": 0, "runs": [[8, s + 4096]]},
+                                       {"op": "remove_stream", "p": sp(["zz"])}],
+                    # the file is closed and reopened inside the cycle: what was released must be reusable
+                    # from the image alone (free lists and free slots are rebuilt from the bytes)
+                    "create_remove_reopen": [{"op": "create_stream", "p": sp(["zz"])},
+                                             {"op": "write", "p": sp(["zz"]), "off": 0, "runs": [[7, s]]},
+                                             {"op": "remove_stream", "p": sp(["zz"])},
+                                             {"op": "reopen", "mode": "strict"}],
+                    "storage_reopen": [{"op": "create_storage", "p": sp(["zz"])},
+                                       {"op": "create_stream", "p": sp(["zz", "quux"])},
+                                       {"op": "reopen", "mode": "permissive"},
+                                       {"op": "remove_storage_all", "p": sp(["zz"])},
+                                       {"op": "reopen", "mode": "strict"}],
                     "trunc_remove_big": [{"op": "create_stream", "p": sp(["zz"])},
                                          {"op": "write", "p": sp(["zz"]), "off": 0, "runs": [[7, s + 8192]]},
                                          {"op": "set_len", "p": sp(["zz"]), "n": 4500},
@@ -565,7 +600,8 @@ def c15_templates(tier):
     return out
 
 
-C15_FILLERS = ["foo", "bar", "baz", "B", "c", "Z", "aa", "stream1", "n31", "n30", "sp", "dot", "dots", "k4", "k5", "k6"]
+C15_FILLERS = ["foo", "bar", "baz", "B", "c", "Z", "aa", "stream1", "n31", "n30", "sp", "dot", "dots", "k4", "k5", "k6",
+               "f1", "f2", "f3", "f4", "f5", "f6", "f7", "f8"]
 
 
 # ---------------------------------------------------------------------------
